@@ -241,7 +241,7 @@ def generate(rng, tier):
 
     n_impl = 2 if rng.random() < 0.25 else 1
     for i in range(n_impl):
-        form = rng.choice(["str", "str", "str_slash", "list", "dict"])
+        form = rng.choice(["str", "str", "str_slash", "list", "dict", "tuple"])
         ids = not (i == 1 and rng.random() < 0.3)
         if form in ("list", "dict"):
             pass
@@ -467,9 +467,11 @@ class World:
                     o = self.sut("HttpConn(address/)", ch.HttpConn, addr + "/")
                 elif form == "list":
                     o = self.sut("HttpConn([address, ids])", ch.HttpConn, [addr, op["ids"]])
+                elif form == "tuple":
+                    o = self.sut("HttpConn((address, ids))", ch.HttpConn, (addr, op["ids"]))
                 else:
                     o = self.sut("HttpConn({address})", ch.HttpConn, {"address": addr, "_send_request_ids": op["ids"]})
-                ids = op["ids"] if form in ("list", "dict") else True
+                ids = op["ids"] if form in ("list", "tuple", "dict") else True
                 m.mk_base(nid, op["impl"], addr, ids)
             else:
                 if op["parent"] not in self.objs or m.nodes[op["parent"]].is_mc:
